@@ -117,42 +117,46 @@ fn typed_expected(m: &v1::Instance) -> TypedVerdict {
         _ => {}
     }
     // 5 / 6 constraints
-    let cpath: &[(&'static str, &'static str)] = &[("ommx.v1.Constraint", "function"), ("ommx.v1.Constraint", "equality")];
+    let c_fn: &[(&'static str, &'static str)] = &[("ommx.v1.Constraint", "function")];
+    let c_eq: &[(&'static str, &'static str)] = &[("ommx.v1.Constraint", "equality")];
     for c in &m.constraints {
         match fn_state(&c.function) {
-            0 => must.push(exp("MissingField", "constraints", cpath)),
-            1 => must.push(exp("UnsupportedV1Function", "constraints", cpath)),
+            0 => must.push(exp("MissingField", "constraints", c_fn)),
+            1 => must.push(exp("UnsupportedV1Function", "constraints", c_fn)),
             _ => {}
         }
         if !(c.equality == 1 || c.equality == 2) {
-            must.push(exp("UnspecifiedEnum", "constraints", cpath));
+            must.push(exp("UnspecifiedEnum", "constraints", c_eq));
         }
     }
-    let rpath: &[(&'static str, &'static str)] = &[("ommx.v1.RemovedConstraint", "constraint"), ("ommx.v1.Constraint", "function"), ("ommx.v1.Constraint", "equality")];
+    let r_c: &[(&'static str, &'static str)] = &[("ommx.v1.RemovedConstraint", "constraint")];
+    let r_fn: &[(&'static str, &'static str)] = &[("ommx.v1.RemovedConstraint", "constraint"), ("ommx.v1.Constraint", "function")];
+    let r_eq: &[(&'static str, &'static str)] = &[("ommx.v1.RemovedConstraint", "constraint"), ("ommx.v1.Constraint", "equality")];
     for r in &m.removed_constraints {
         match &r.constraint {
-            None => must.push(exp("MissingField", "removed_constraints", rpath)),
+            None => must.push(exp("MissingField", "removed_constraints", r_c)),
             Some(c) => {
                 match fn_state(&c.function) {
-                    0 => must.push(exp("MissingField", "removed_constraints", rpath)),
-                    1 => must.push(exp("UnsupportedV1Function", "removed_constraints", rpath)),
+                    0 => must.push(exp("MissingField", "removed_constraints", r_fn)),
+                    1 => must.push(exp("UnsupportedV1Function", "removed_constraints", r_fn)),
                     _ => {}
                 }
                 if !(c.equality == 1 || c.equality == 2) {
-                    must.push(exp("UnspecifiedEnum", "removed_constraints", rpath));
+                    must.push(exp("UnspecifiedEnum", "removed_constraints", r_eq));
                 }
             }
         }
     }
     // 7 variables
-    let vpath: &[(&'static str, &'static str)] = &[("ommx.v1.DecisionVariable", "kind"), ("ommx.v1.DecisionVariable", "bound")];
+    let v_kind: &[(&'static str, &'static str)] = &[("ommx.v1.DecisionVariable", "kind")];
+    let v_bound: &[(&'static str, &'static str)] = &[("ommx.v1.DecisionVariable", "bound")];
     for v in &m.decision_variables {
         if !(1..=5).contains(&v.kind) {
-            must.push(exp("UnspecifiedEnum", "decision_variables", vpath));
+            must.push(exp("UnspecifiedEnum", "decision_variables", v_kind));
         }
         if let Some(b) = &v.bound {
             if bound_invalid(b) {
-                must.push(exp("InvalidBound", "decision_variables", vpath));
+                must.push(exp("InvalidBound", "decision_variables", v_bound));
             }
         }
     }
@@ -168,16 +172,14 @@ fn typed_expected(m: &v1::Instance) -> TypedVerdict {
     // 9 hints
     let mut hint_names_removed = false;
     if let Some(h) = &m.constraint_hints {
-        let hp: &[(&'static str, &'static str)] = &[
-            ("ommx.v1.ConstraintHints", "one_hot_constraints"),
-            ("ommx.v1.ConstraintHints", "sos1_constraints"),
-            ("ommx.v1.OneHot", "constraint_id"),
-            ("ommx.v1.OneHot", "decision_variables"),
-            ("ommx.v1.Sos1", "binary_constraint_id"),
-            ("ommx.v1.Sos1", "big_m_constraint_ids"),
-            ("ommx.v1.Sos1", "decision_variables"),
-        ];
-        let mut check_c = |id: u64, must: &mut Vec<Expected>| {
+        // the path to the offending field, per kind of hint and per field of it
+        const CH: &str = "ommx.v1.ConstraintHints";
+        let oh_c: &[(&'static str, &'static str)] = &[(CH, "one_hot_constraints"), ("ommx.v1.OneHot", "constraint_id")];
+        let oh_v: &[(&'static str, &'static str)] = &[(CH, "one_hot_constraints"), ("ommx.v1.OneHot", "decision_variables")];
+        let s1_b: &[(&'static str, &'static str)] = &[(CH, "sos1_constraints"), ("ommx.v1.Sos1", "binary_constraint_id")];
+        let s1_m: &[(&'static str, &'static str)] = &[(CH, "sos1_constraints"), ("ommx.v1.Sos1", "big_m_constraint_ids")];
+        let s1_v: &[(&'static str, &'static str)] = &[(CH, "sos1_constraints"), ("ommx.v1.Sos1", "decision_variables")];
+        let mut check_c = |id: u64, hp: &[(&'static str, &'static str)], must: &mut Vec<Expected>| {
             if !active.contains(&id) {
                 if removed.contains(&id) {
                     hint_names_removed = true;
@@ -186,7 +188,7 @@ fn typed_expected(m: &v1::Instance) -> TypedVerdict {
                 }
             }
         };
-        let check_vars = |vs: &Vec<u64>, must: &mut Vec<Expected>| {
+        let check_vars = |vs: &Vec<u64>, hp: &[(&'static str, &'static str)], must: &mut Vec<Expected>| {
             let mut seen = BTreeSet::new();
             for v in vs {
                 if !ids.contains(v) {
@@ -197,20 +199,20 @@ fn typed_expected(m: &v1::Instance) -> TypedVerdict {
             }
         };
         for o in &h.one_hot_constraints {
-            check_c(o.constraint_id, &mut must);
-            check_vars(&o.decision_variables, &mut must);
+            check_c(o.constraint_id, oh_c, &mut must);
+            check_vars(&o.decision_variables, oh_v, &mut must);
         }
         for s in &h.sos1_constraints {
-            check_c(s.binary_constraint_id, &mut must);
+            check_c(s.binary_constraint_id, s1_b, &mut must);
             let mut seen = BTreeSet::new();
             for b in &s.big_m_constraint_ids {
                 let before = must.len();
-                check_c(*b, &mut must);
+                check_c(*b, s1_m, &mut must);
                 if must.len() == before && !seen.insert(*b) {
-                    must.push(exp("NonUniqueConstraintID", "constraint_hints", hp));
+                    must.push(exp("NonUniqueConstraintID", "constraint_hints", s1_m));
                 }
             }
-            check_vars(&s.decision_variables, &mut must);
+            check_vars(&s.decision_variables, s1_v, &mut must);
         }
     }
     TypedVerdict {
@@ -712,7 +714,11 @@ fn judge(m: &v1::Instance, label: &str, mon: &mut Monitor) {
             mon.facet(&format!("error-kind:{kind}"));
             // the reported kind and field must be those of one violated rule
             let top = top_field(&e);
-            let hit = tv.must.iter().find(|x| x.kind == kind && Some(x.top) == top);
+            // the context lists the path from the offending field outwards to the Instance field
+            // and must be an initial part of that path (the innermost field may be named by the error itself)
+            let on_path = |x: &Expected| e.context.len() <= x.path.len() && e.context.iter().rev().zip(x.path.iter()).all(|(c, (m, f))| *m == c.message && *f == c.field);
+            // among the violated rules of this kind and field, prefer one whose path explains the whole context
+            let hit = tv.must.iter().filter(|x| x.kind == kind && Some(x.top) == top).max_by_key(|x| on_path(x));
             match hit {
                 None => {
                     let want: BTreeSet<String> = tv.must.iter().map(|x| format!("{}@{}", x.kind, x.top)).collect();
@@ -722,13 +728,11 @@ fn judge(m: &v1::Instance, label: &str, mon: &mut Monitor) {
                     );
                 }
                 Some(x) => {
-                    for c in &e.context {
-                        if !x.path.iter().any(|(m, f)| *m == c.message && *f == c.field) {
-                            mon.violation(
-                                format!("C08.error-path:{}", fault_class(label)),
-                                format!("context entry {}[{}] is not on the path to the offending field (allowed {:?})\nerror:\n{e}\n{}", c.message, c.field, x.path, ctx()),
-                            );
-                        }
+                    if !on_path(x) {
+                        mon.violation(
+                            format!("C08.error-path:{}", fault_class(label)),
+                            format!("the reported context {:?} is not an initial part of the path to the offending field of a violated rule of this kind (e.g. {:?}, outermost first)\nerror:\n{e}\n{}", e.context.iter().map(|c| (c.message, c.field)).collect::<Vec<_>>(), x.path, ctx()),
+                        );
                     }
                 }
             }
@@ -844,7 +848,7 @@ impl Property for C08 {
         }
     }
     fn rule(&self) -> &'static str {
-        "each case takes one base instance (two of three from the harness generator with hints, dependencies, parameters, semi kinds, fixed values; one of three from the SDK's own proptest strategy), judges it, then applies EVERY single-fault mutation at EVERY position: duplicate a variable id (append / overwrite each other entry), duplicate a constraint id (active/active, active/removed, removed/removed), an undefined id at each term position of the objective / each constraint / each removed constraint, unset or unknown sense, absent objective, unset oneof, absent / unset constraint function, absent removed constraint, unspecified kind / equality, five invalid bound shapes per variable, eight hint faults, undefined dependency key, unset dependency function; then 10 random pairs of faults; plus one parametric-instance case (shared id, duplicate parameter, undefined id, duplicate constraint id). An independent predicate decides the expected outcome of validate() and try_from (error kind, Instance field, allowed context path); accepted messages are compared with the typed view through hook verif_parts. Non-trivial = every judged mutated message; distinct = fingerprint of the mutated message."
+        "each case takes one base instance (two of three from the harness generator with hints, dependencies, parameters, semi kinds, fixed values; one of three from the SDK's own proptest strategy), judges it, then applies EVERY single-fault mutation at EVERY position: duplicate a variable id (append / overwrite each other entry), duplicate a constraint id (active/active, active/removed, removed/removed), an undefined id at each term position of the objective / each constraint / each removed constraint, unset or unknown sense, absent objective, unset oneof, absent / unset constraint function, absent removed constraint, unspecified kind / equality, five invalid bound shapes per variable, eight hint faults, undefined dependency key, unset dependency function; then 10 random pairs of faults; plus one parametric-instance case (shared id, duplicate parameter, undefined id, duplicate constraint id). An independent predicate decides the expected outcome of validate() and try_from (error kind, Instance field, and the context path, which may only name messages and fields on the way to the offending field of one violated rule of that kind); accepted messages are compared with the typed view through hook verif_parts. Non-trivial = every judged mutated message; distinct = fingerprint of the mutated message."
     }
     fn assumptions(&self) -> Vec<&'static str> {
         vec![
